@@ -212,6 +212,32 @@ CLAIMED = {
    note="Don't-cares: geometries with no external axis, linear indices out of range, exception class of get_from_index on "
         "unwritten, MaskedArray vs masked constants, non-tuple keys / step 0.",
    technique="TLA+ masked-array model checked by TLC; exported op sequences replayed on every backend; TLC trace validation"),
+ "C09": dict(
+   category="model_checking", design_ref="6 C09",
+   text="PipelineCache.tla, two layers. (A) the ideal rule for trace validation: a history of calls and mutations "
+        "(update_defaults / update_bound / replace) on one pipeline whose description is a variable; every call that succeeds "
+        "without caching must return Eval(d_now, kw, out); a cached function may be skipped only if its current output term "
+        "was produced before; an exactly repeated call must not re-execute a cached function whose documented key is observed "
+        "resident. (B) an implementation-shaped model of the key scheme with a switch as-is | repaired and invariant Coherent: "
+        "TLC exhibits the stale-value families for the as-is scheme and passes for the repaired one, and exports witness "
+        "histories. Twin pipelines (cached / uncached) over simple/lru/hybrid/disk caches and every cached subset are driven "
+        "through TLC-exported and seeded random histories; TLC validates the cached twin's events (TracePipelineCache.tla).",
+   note="Map side (_get_or_set_cache; design finding F25: `if key in cache: return cache.get(key)` can hand None to the "
+        "caller after an eviction) is an extension point, not claimed. Eviction is not modelled; it only limits when the "
+        "no-re-execution obligation applies.",
+   technique="TLA+ cache-coherence model checked by TLC; twin-pipeline histories validated by TLC"),
+ "C18": dict(
+   category="model_checking", design_ref="6 C18",
+   text="PipelineLazy.tla (on PipelineCall): Build (nothing runs), Evaluate (each needed function exactly once in any "
+        "dependency-respecting order), ReEvaluate (no call), several handles inside one construct_dag() block, and "
+        "TaskGraphOK (picker nodes contracted: acyclic, one node per needed function, edge set = producer->consumer "
+        "dependencies); invariants NothingBeforeEvaluate, AtMostOncePerNode, ExactlyOnceNeeded, ValueIsEval, GraphIsOK; TLC "
+        "explores the behaviours over the MC_PipelineCall universe with deadlock checking and requires TaskGraphOK to reject "
+        "every single edge/node mutation of the reference graph. Every description x output x cut x listing order is built "
+        "with lazy=True, with and without construct_dag, next to an eager twin; TLC validates the recorded histories "
+        "(TracePipelineLazy.tla); random DAGs are added.",
+   note="Interleaved evaluation of several live handles and lazy + user caches are not driven.",
+   technique="TLA+ lazy-evaluation state machine checked by TLC; universe export; TLC trace validation"),
 }
 NOT_YET = "check not built yet in this round (specification module planned in DESIGN.md section 6)"
 
